@@ -110,7 +110,13 @@ fn run_case(dir: &Path, c: &Case) -> Result<Vec<&'static str>, (String, String)>
         cl.send(&pkt, srv.addr);
         let reply = cl.recv(Duration::from_millis(40));
         match reply.as_ref().map(|(b, from)| (refcodec::decode(b), *from)) {
-            None => {}
+            None => {
+                // no answer within the wait: a write request may still have been accepted (the ACK 0 is merely late on a
+                // loaded machine) - only an explicit ERROR counts as a refusal
+                if rq.write {
+                    accepted_any = true;
+                }
+            }
             Some((RDec::Ok(RPacket::Error { .. }), _)) => {}
             Some((RDec::Ok(RPacket::Data { block: 1, data }), from)) if !rq.write => {
                 // must be the content of a regular file inside the send directory
@@ -318,7 +324,7 @@ pub fn strategy() -> BoxedStrategy<Case> {
 }
 
 pub fn run(ctx: &Ctx) {
-    ctx.set_rule("the real tftpd serves a sandbox tree root/{srv, srv-evil, srvx, rcv, rcv-evil, outside.txt, a.txt, cwd} in which every file has unique content; configurations {shared -d, distinct -sd/-rd} x {absolute, relative directory arguments} x {overwrite on/off} x {single, multi port}. Filenames: exhaustive joins of <=L segments (quick 3, thorough 4) from {.., ., empty, existing file, existing subdirectory, sibling directory name, outside file, ~, absolute path of the sandbox root, C:} with separators {/, \\, //, \\/} and 6 kinds of leading separators, plus targeted traversal spellings, plus random names up to 480 bytes (Unicode, very long ../ chains). Every name is sent as RRQ and as WRQ; accepted requests are completed with one short block. Oracle: an RRQ is answered by ERROR/silence or by DATA equal to the content of a regular file inside the send directory; a recursive snapshot (paths, types, sizes, content hashes) taken after every request may differ from the initial one only by files created or modified inside the receive directory, and not at all as long as no write request of the batch has been accepted. Non-trivial = the batch contains a name with '..', a leading separator, a backslash or a prefix-sharing sibling; distinct = distinct batches. No symlinks in the tree.");
+    ctx.set_rule("the real tftpd serves a sandbox tree root/{srv, srv-evil, srvx, rcv, rcv-evil, outside.txt, a.txt, cwd} in which every file has unique content; configurations {shared -d, distinct -sd/-rd} x {absolute, relative directory arguments} x {overwrite on/off} x {single, multi port}. Filenames: exhaustive joins of <=L segments (quick 3, thorough 4) from {.., ., empty, existing file, existing subdirectory, sibling directory name, outside file, ~, absolute path of the sandbox root, C:} with separators {/, \\, //, \\/} and 6 kinds of leading separators, plus targeted traversal spellings, plus random names up to 480 bytes (Unicode, very long ../ chains). Every name is sent as RRQ and as WRQ; accepted requests are completed with one short block. Oracle: an RRQ is answered by ERROR/silence or by DATA equal to the content of a regular file inside the send directory; a recursive snapshot (paths, types, sizes, content hashes) taken after every request may differ from the initial one only by files created or modified inside the receive directory, and not at all as long as every write request of the batch so far was answered with an ERROR. Non-trivial = the batch contains a name with '..', a leading separator, a backslash or a prefix-sharing sibling; distinct = distinct batches. No symlinks in the tree.");
     ctx.assume("Linux path semantics only; symlinks inside the served tree are an operator decision and not generated");
     let dirs = DirPool::new(ctx, "c03");
     let l = ctx.tier.pick(3, 4);
